@@ -52,6 +52,16 @@ def gen_one(r, i, tier):
         spec = g.spec(kind=r.choice(gen.NODES + gen.NODES + gen.LEAVES[1:]))
         if quantity_bearing(spec):
             break
+    if not dyadic and spec["k"] in ("Average", "Deviate"):
+        # the root kind is drawn from all leaves: an Average/Deviate root of an inexact program gets
+        # its constants of magnitude 1e16 replaced (x - 1e16 makes the variance formulas cancel)
+        def tame(e):
+            if isinstance(e, list):
+                if len(e) == 2 and e[0] == "c" and isinstance(e[1], float) and abs(e[1]) >= 1e4:
+                    e[1] = 2.5
+                for x in e:
+                    tame(x)
+        tame(spec["q"]["e"])
     # stratum for the kernels' special cases (np.histogram / np.unique fast paths of Count-valued
     # Bin, CentrallyBin, SparselyBin, Categorize, which depend on the weight being 1, a scalar or an
     # array): such a node at the root or directly below a collection, every weight mode in turn
